@@ -18,3 +18,27 @@ s = open(V + '/DESIGN.md').read()
 s = re.sub(r'<!-- SEED-MATRIX-BEGIN -->.*?<!-- SEED-MATRIX-END -->', lambda _: '\n'.join(block), s, flags=re.S)
 open(V + '/DESIGN.md', 'w').write(s)
 print(len(rows), 'rows')
+
+# ---- refactoring corpus ---------------------------------------------------------------------------------------------------
+trows = []
+for mp in sorted(glob.glob(V + '/twins/*/meta.json')):
+    m = json.load(open(mp))
+    d = os.path.dirname(mp)
+    patch = open(d + '/patch.diff').read()
+    files = sorted(set(re.findall(r'^\+\+\+ b/(\S+)', patch, re.M)))
+    readme = ''
+    if os.path.exists(d + '/README.md'):
+        lines = [l.strip() for l in open(d + '/README.md').read().splitlines() if l.strip() and not l.startswith('#')]
+        readme = ' '.join(lines)[:160]
+    fa, ae = m.get('false_alarms', []), m.get('analysis_errors', [])
+    status = 'silent' if not fa and not ae else ('**false alarm**: ' + '; '.join(sorted({re.search(r'\[(C\d+/[\w-]+)\]', x).group(1) for x in fa if re.search(r'\[(C\d+/[\w-]+)\]', x)}))
+                                                 if fa else 'analysis error (exit 2): ' + '; '.join(sorted({x.split(' ', 2)[1] for x in ae})))
+    trows.append('| %s | %s | %s | %s |' % (m.get('id', os.path.basename(d)), ', '.join(f.split('/')[-1] for f in files), readme.replace('|', '/'), status))
+tb = ['<!-- TWIN-MATRIX-BEGIN -->', '| refactoring | file(s) | what it rewrites | all quick checks |', '|---|---|---|---|'] + trows + \
+     ['', '%d behaviour-preserving refactorings; %d silent, %d false alarm(s), %d analysis error(s).'
+      % (len(trows), sum(1 for r in trows if r.endswith('| silent |')), sum(1 for r in trows if 'false alarm' in r), sum(1 for r in trows if 'analysis error' in r)),
+      '<!-- TWIN-MATRIX-END -->']
+s = open(V + '/DESIGN.md').read()
+s = re.sub(r'<!-- TWIN-MATRIX-BEGIN -->.*?<!-- TWIN-MATRIX-END -->', lambda _: '\n'.join(tb), s, flags=re.S)
+open(V + '/DESIGN.md', 'w').write(s)
+print(len(trows), 'twin rows')
